@@ -139,11 +139,14 @@ CODEC_BATCH = 250
 LICENSE_BATCH = 100
 
 # minimum-reach floors, ~50% of what a run on the current tree measures (quick: seed 0 measured; thorough: scaled
-# by the workload ratio and checked against a measured thorough run)
+# by the workload ratio and checked against a measured thorough run).  The M.perm* / perm:* / lic:common-indent* /
+# feat:common-indent / M.license-enc floors (min over quick seeds 0-3, thorough seed 0, halved) make a run that never
+# reaches the parsed-permutation or common-indentation classes INCONCLUSIVE.
 FLOORS = {
     'quick': {'nontrivial': 45000,
               'monitors': {'M.doc': 5000, 'M.para': 20000, 'M.value': 90000, 'M.codec': 65000, 'M.codec-str': 49000,
-                           'M.license': 15000, 'K.codec': 145000},
+                           'M.license': 15000, 'K.codec': 170000, 'M.license-enc': 15000, 'M.perm': 3200,
+                           'M.perm-para': 15500, 'M.perm-value': 69000, 'M.perm-fixpoint': 3200},
               'counters': {'feat:empty-line': 4400, 'feat:indent': 4500, 'feat:tab': 3800, 'feat:non-ascii': 4800,
                            'feat:trailing-blank': 4500, 'feat:files-list>80': 2900, 'feat:files-list>120': 1700,
                            'feat:pattern>80': 1500, 'feat:pattern-hyphen': 3800, 'feat:files-single': 1700,
@@ -151,10 +154,20 @@ FLOORS = {
                            'feat:files-paragraph': 4200, 'feat:license-paragraph': 3300, 'feat:header-license': 990,
                            'feat:set-then-clear': 1200, 'feat:reassigned': 3700, 'feat:files-added-after-license': 2100,
                            'input:keepends': 1200, 'input:noends': 1200, 'input:stringio': 1200, 'input:bytes': 1200,
-                           'codec:enumerated': 16105}},
+                           'codec:enumerated': 16105,
+                           'feat:common-indent': 1750, 'lic:common-indent': 2000, 'lic:common-indent-space': 1000,
+                           'lic:common-indent-tab': 360, 'lic:common-indent-mixed': 590,
+                           'lic:common-indent-with-empty-line': 660,
+                           'perm:license-before-first-files': 1250, 'perm:license-between-files': 1000,
+                           'perm:files-after-license': 2050, 'perm:all-licenses-before-all-files': 700,
+                           'perm:files-reordered-among-themselves': 1950,
+                           'perm:licenses-reordered-among-themselves': 1050,
+                           'perm-input:keepends': 800, 'perm-input:noends': 800, 'perm-input:stringio': 800,
+                           'perm-input:bytes': 800}},
     'thorough': {'nontrivial': 2000000,
                  'monitors': {'M.doc': 280000, 'M.para': 1100000, 'M.value': 5000000, 'M.codec': 3500000, 'M.codec-str': 2600000,
-                              'M.license': 700000, 'K.codec': 6000000},
+                              'M.license': 700000, 'K.codec': 9000000, 'M.license-enc': 700000, 'M.perm': 184000,
+                              'M.perm-para': 889000, 'M.perm-value': 3900000, 'M.perm-fixpoint': 184000},
                  'counters': {'feat:empty-line': 198000, 'feat:indent': 202500, 'feat:tab': 171000, 'feat:non-ascii': 216000,
                               'feat:trailing-blank': 202500, 'feat:files-list>80': 130500, 'feat:files-list>120': 76500,
                               'feat:pattern>80': 67500, 'feat:pattern-hyphen': 171000, 'feat:files-single': 76500,
@@ -162,7 +175,16 @@ FLOORS = {
                               'feat:files-paragraph': 189000, 'feat:license-paragraph': 148500, 'feat:header-license': 44550,
                               'feat:set-then-clear': 54000, 'feat:reassigned': 166500, 'feat:files-added-after-license': 94500,
                               'input:keepends': 54000, 'input:noends': 54000, 'input:stringio': 54000, 'input:bytes': 54000,
-                              'codec:enumerated': 16105}},
+                              'codec:enumerated': 16105,
+                              'feat:common-indent': 99000, 'lic:common-indent': 94000, 'lic:common-indent-space': 48000,
+                              'lic:common-indent-tab': 17000, 'lic:common-indent-mixed': 28000,
+                              'lic:common-indent-with-empty-line': 32000,
+                              'perm:license-before-first-files': 72000, 'perm:license-between-files': 59000,
+                              'perm:files-after-license': 118000, 'perm:all-licenses-before-all-files': 41000,
+                              'perm:files-reordered-among-themselves': 111000,
+                              'perm:licenses-reordered-among-themselves': 61000,
+                              'perm-input:keepends': 46000, 'perm-input:noends': 46000, 'perm-input:stringio': 46000,
+                              'perm-input:bytes': 46000}},
 }
 
 # ---------------------------------------------------------------------------
@@ -286,6 +308,8 @@ def spec_in_domain(case):
             else:
                 if not license_ok(op['license']):
                     return False
+            if 'pos' in op and (not isinstance(op['pos'], int) or isinstance(op['pos'], bool)):
+                return False
             for attr, val in op.get('then', []):
                 if attr not in table:
                     return False
@@ -352,11 +376,50 @@ def gen_text_line(r):
             return line
 
 
+COMMON_INDENTS = [' ', '  ', '   ', '    ', '        ', '\t', '\t\t', ' \t', '\t ', '  \t']
+
+
+def gen_common_indent_text(r):
+    """A text in which every non-empty line starts with the same run of blanks /
+    tabs (the class a dedenting or indentation-normalising codec destroys)."""
+    indent = r.choice(COMMON_INDENTS)
+    n = r.choice([2, 2, 3, 3, 4, 5, 6, 9, 20])
+    lines = []
+    for i in range(n):
+        k = r.random()
+        if k < 0.15 and 0 < i < n - 1:
+            lines.append('')
+            continue
+        deeper = r.choice(['', '', '', ' ', '  ', '\t', '    '])
+        tail = r.choice(['', '', '', '', ' ', '  ', '\t'])
+        lines.append(indent + deeper + gen_content(r, 1, 5) + tail)
+    return '\n'.join(lines)
+
+
+def common_indent(lines):
+    """The common leading blank/tab run of the non-empty lines ('' if none or if
+    fewer than two non-empty lines)."""
+    body = [l for l in lines if l != '']
+    if len(body) < 2:
+        return ''
+    lead = body[0][:len(body[0]) - len(body[0].lstrip(' \t'))]
+    for l in body[1:]:
+        i = 0
+        while i < len(lead) and i < len(l) and l[i] == lead[i]:
+            i += 1
+        lead = lead[:i]
+        if not lead:
+            return ''
+    return lead
+
+
 def gen_text(r, maxlines=9):
     k = r.random()
     if k < 0.12:
         return ''
-    if k < 0.17:
+    if k < 0.25:
+        return gen_common_indent_text(r)
+    if k < 0.30:
         n = r.randint(15, 40)
     else:
         n = r.randint(1, maxlines)
@@ -382,12 +445,17 @@ def encode_raw(first, rest, r=None):
     is; following lines get a blank (or, with r, blanks / a tab) in front, an
     empty line is written ' .'."""
     out = [first]
+    common = None
+    if r is not None and r.random() < 0.2:       # every continuation line gets the same lead
+        common = r.choice([' ', '  ', '    ', '\t', ' \t', '           '])
     for l in rest:
         if l == '':
             out.append(' .')
         else:
             lead = ' '
-            if r is not None:
+            if common is not None:
+                lead = common
+            elif r is not None:
                 lead = r.choice([' ', ' ', ' ', '  ', '\t', '           '])
             out.append(lead + l)
     return '\n'.join(out)
@@ -503,6 +571,10 @@ def gen_doc(r):
                 if attr == 'comment' and r.random() < 0.15:
                     op['then'].append([attr, None])
         ops.append(op)
+    # rank of each paragraph in the PERMUTED text derived from the dump (drawn last, so that the specs themselves
+    # are the ones the module always generated); ties are broken by the order of addition
+    for op in ops:
+        op['pos'] = r.randrange(1000)
     return {'kind': 'doc', 'input': r.choice(INPUTS), 'header': header, 'ops': ops}
 
 
@@ -558,6 +630,14 @@ def _text_features(lines, feats):
     return hit
 
 
+def _indent_class(lead):
+    if lead.strip(' ') == '':
+        return 'space'
+    if lead.strip('\t') == '':
+        return 'tab'
+    return 'mixed'
+
+
 def doc_features(final):
     """final = {'header': {attr: value}, 'paras': [(t, {attr: value}), ...]}"""
     feats = set()
@@ -571,6 +651,8 @@ def doc_features(final):
             lines = [val[0]] + (val[1].split('\n') if val[1] != '' else [])
             if _text_features(lines, feats):
                 nontrivial_text = True
+            if common_indent(lines[1:]):
+                feats.add('common-indent')
         elif kind == 'raw':
             # look at the logical lines: the structural lead character of continuation lines is removed,
             # the ' .' marker counts as an empty line, a TAB lead counts as tab
@@ -763,7 +845,7 @@ def _check_doc(case, stats):
     if stats is not None:
         stats['order'] = order
 
-    def compare(objs, where):
+    def compare(objs, where, expected=expected):
         n = 0
         for idx, (p, (t, vals)) in enumerate(zip(objs, expected)):
             table = HEADER_FIELDS if t == 'H' else FILES_FIELDS if t == 'F' else LICENSE_FIELDS
@@ -826,7 +908,122 @@ def _check_doc(case, stats):
         return out
     if text2 != text:
         out.append(('redump-differs', 'dump %r, dump of re-parsed document %r' % (text, text2)))
+    if out:
+        return out          # permuted starting points are only derived from a dump M.doc had no complaint about
+
+    # ---- PARSED starting points: the same paragraph texts in another order (License before / between Files)
+    _check_permuted(case, text, order, final, compare, copyright, out, stats)
     return out
+
+
+def permuted_order(case):
+    """Op indices in the order the permuted text T2 carries them: by op['pos'],
+    ties (and specs without ranks) by order of addition."""
+    ops = case.get('ops', [])
+    return sorted(range(len(ops)), key=lambda i: (ops[i].get('pos', i), i))
+
+
+def perm_classes(kinds, order, order2):
+    """Names of the ordering classes a permuted sequence of kinds shows."""
+    cls = set()
+    f_at = [i for i, t in enumerate(kinds) if t == 'F']
+    l_at = [i for i, t in enumerate(kinds) if t == 'L']
+    if f_at and l_at:
+        if l_at[0] < f_at[0]:
+            cls.add('license-before-first-files')
+        if any(f_at[0] < i < f_at[-1] for i in l_at):
+            cls.add('license-between-files')
+        if any(i > l_at[0] for i in f_at):
+            cls.add('files-after-license')
+        if l_at[-1] < f_at[0]:
+            cls.add('all-licenses-before-all-files')
+    elif f_at:
+        cls.add('files-only')
+    else:
+        cls.add('license-only')
+    rank = dict((op, k) for k, op in enumerate(order))
+    seq = [rank[op] for op in order2]
+    fs = [x for x, t in zip(seq, kinds) if t == 'F']
+    ls = [x for x, t in zip(seq, kinds) if t == 'L']
+    if fs != sorted(fs):
+        cls.add('files-reordered-among-themselves')
+    if ls != sorted(ls):
+        cls.add('licenses-reordered-among-themselves')
+    return cls
+
+
+def _check_permuted(case, text, order, final, compare, copyright, out, stats):
+    nops = len(order)
+    order2 = permuted_order(case)
+    if stats is not None:
+        stats['perm'] = 'identity'
+    if nops < 2 or order2 == order:
+        return
+    # cut the dump at its empty separator lines; every piece is text the library wrote for one paragraph
+    if not text.endswith('\n') or text.endswith('\n\n'):
+        pieces = []
+    else:
+        pieces = text[:-1].split('\n\n')
+    if len(pieces) != nops + 1 or any(pc == '' or pc[0] == '\n' or pc[-1] == '\n' for pc in pieces):
+        if stats is not None:
+            stats['perm'] = 'unsplittable'
+        return
+    piece_of_op = dict((op, pieces[k + 1]) for k, op in enumerate(order))
+    text_p = '\n\n'.join([pieces[0]] + [piece_of_op[op] for op in order2]) + '\n'
+    expected_p = [('H', final['header'])] + [final['paras'][op] for op in order2]
+    kinds_p = [t for t, _ in expected_p]
+    if stats is not None:
+        stats['perm'] = 'run'
+        stats['perm_classes'] = perm_classes(kinds_p[1:], order, order2)
+    mode = case['input']
+    mode_b = INPUTS[(INPUTS.index(mode) + 1) % len(INPUTS)]
+
+    def parse(t, m, what):
+        try:
+            doc = copyright.Copyright(_feed(t, m), strict=True)
+        except Exception as e:
+            out.append(('%s-strict-parse-raises/%s' % (what, type(e).__name__),
+                        'text %r (paragraph texts of a dump, reordered; fed as %s) does not parse: %r' % (t, m, e)))
+            return None, None
+        objs = list(doc.all_paragraphs())
+        kinds = [_kind_of(p, copyright) for p in objs]
+        if kinds != kinds_p:
+            key = '%s-paragraph-count-differs' if len(kinds) != len(kinds_p) else '%s-paragraph-order-or-kind-differs'
+            out.append((key % what, 'text carries %r, parsed document reports %r; text=%r' % (kinds_p, kinds, t)))
+            return None, None
+        return doc, objs
+
+    c3, objs3 = parse(text_p, mode, 'permuted')
+    if c3 is None:
+        return
+    before = len(out)
+    n = compare(objs3, 'permuted', expected_p)
+    if stats is not None:
+        stats['perm_paras'] = len(objs3)
+        stats['perm_values'] = n
+    try:
+        text3 = c3.dump()
+    except Exception as e:
+        out.append(('permuted-dump-raises/%s' % type(e).__name__, 'dump() of the parsed document raised %r' % (e,)))
+        return
+    if text3 != text_p:
+        out.append(('permuted-dump-differs-from-parsed-text', 'parsed %r, dump() gives %r' % (text_p, text3)))
+    if len(out) != before:
+        return
+    # second cycle: a fixpoint, in values and in text
+    c4, objs4 = parse(text3, mode_b, 'permuted-second-cycle')
+    if c4 is None:
+        return
+    compare(objs4, 'permuted-second-cycle', expected_p)
+    try:
+        text4 = c4.dump()
+    except Exception as e:
+        out.append(('permuted-second-cycle-dump-raises/%s' % type(e).__name__, 'dump() raised %r' % (e,)))
+        return
+    if text4 != text3:
+        out.append(('permuted-second-cycle-dump-differs', 'first cycle %r, second cycle %r' % (text3, text4)))
+    if stats is not None:
+        stats['perm_fixpoint'] = 1
 
 
 # ---------------------------------------------------------------------------
@@ -992,8 +1189,34 @@ def check_license(ctx, lic):
     elif back.text != lic[1]:
         ctx.violation('license-text-differs-after-to-str-from-str',
                       'License%r -> %r -> %r' % (tuple(lic), s, back), small)
-    elif '\n' in lic[1]:
-        ctx.nontrivial(case={'license': lic})
+    else:
+        if '\n' in lic[1]:
+            ctx.nontrivial(case={'license': lic})
+        # the ENCODED string is the reference: decoding and encoding what the library itself produced is the identity
+        ctx.mon('M.license-enc')
+        lead = common_indent(lic[1].split('\n'))
+        if lead:
+            ctx.count('lic:common-indent')
+            ctx.count('lic:common-indent-%s' % _indent_class(lead))
+            if '' in lic[1].split('\n'):
+                ctx.count('lic:common-indent-with-empty-line')
+        try:
+            s2 = back.to_str()
+            s3 = copyright.License.from_str(s2).to_str()
+        except MonitorViolation as e:
+            contracts.PENDING[:] = []
+            ctx.violation(e.key, e.msg, small)
+            return
+        except Exception as e:
+            ctx.violation('license-reencode-raises/%s' % type(e).__name__,
+                          'License%r -> %r -> from_str -> to_str: %r' % (tuple(lic), s, e), small)
+            return
+        if s2 != s:
+            ctx.violation('license-encoded-string-differs-after-from-str-to-str',
+                          'License%r encodes to %r; from_str(that).to_str() = %r' % (tuple(lic), s, s2), small)
+        elif s3 != s:
+            ctx.violation('license-encoded-string-not-a-fixpoint',
+                          'License%r encodes to %r; second from_str/to_str cycle gives %r' % (tuple(lic), s, s3), small)
 
 
 # ---------------------------------------------------------------------------
@@ -1098,6 +1321,17 @@ def run_case(ctx, case):
     if order is not None and order != sorted(order):
         ctx.count('feat:files-added-after-license')
     ctx.count('paras:%d' % len(case.get('ops', [])))
+    perm = stats.get('perm')
+    if perm is not None:
+        ctx.count('perm:%s' % perm)
+    if perm == 'run':
+        ctx.mon('M.perm')
+        ctx.mon('M.perm-para', stats.get('perm_paras', 0))
+        ctx.mon('M.perm-value', stats.get('perm_values', 0))
+        ctx.mon('M.perm-fixpoint', stats.get('perm_fixpoint', 0))
+        for cl in stats.get('perm_classes', ()):
+            ctx.count('perm:%s' % cl)
+        ctx.count('perm-input:%s' % case['input'])
     if nontrivial:
         ctx.nontrivial()
     seen = set()
